@@ -19,7 +19,8 @@
               locals 6 and 7 (assigned by ordinary actions right before `R`; for named results local 6/7 ARE the result
               variables), action 2000+d = `defer <closure d>`, action 4000 = `panic("p")`
      dops  := per deferred closure a `,`-separated op list: 1.v.a.b  v = (v*a + b) % 1009 | 2.site  yield(site)
-              | 3.id.v  println("d", id, v) | 4  recover()
+              | 3.id.v  println("d", id, v) | 4  recover() | 5.id  println("s", id)  (a deferred call whose
+              arguments were evaluated at the defer statement)
   ops:
      ref  <prog>            → trace of the reference semantics of P (yield statements erased)
      mach <prog> <bits>     → trace of the flattened machines of P′ under the schedule `enabled[site] = bits[site]`
@@ -45,6 +46,7 @@ inductive DOp where
   | mod (v a b : Nat)
   | yld (site : Nat)
   | prt (id v : Nat)
+  | prc (id : Nat)
   | recov
   deriving Inhabited
 
@@ -145,6 +147,7 @@ def parseDOp (s : String) : Option DOp :=
   | [1, v, a, b] => some (.mod v a b)
   | [2, site] => some (.yld site)
   | [3, id, v] => some (.prt id v)
+  | [5, id] => some (.prc id)
   | [4] => some .recov
   | _ => none
 
@@ -242,6 +245,7 @@ def doDOp (s : St) : DOp → St
   | .mod v a b => s.set v ((s.get v * a + b) % 1009)
   | .yld _ => s
   | .prt id v => s.print s!"d {id} {s.get v}"
+  | .prc id => s.print s!"s {id}"
   | .recov => { s with panicking := false }
 
 def doDeferred (P : Prog) (d : Nat) (s : St) : St := (P.dops.getD d []).foldl doDOp s
